@@ -7,7 +7,7 @@
    reachable from the documented in-place arguments (computed here, not by the harness) unless the skeleton itself
    is rejected by `safe_with flags` (it then models a known defect of the code as it is). *)
 From Coq Require Import List Arith ZArith Bool.
-From TLV Require Import Model.Effects Model.EffectsR7 Corr.Common.
+From TLV Require Import Model.Effects Model.EffectsR7 Model.EffectsR8 Corr.Common.
 Import ListNotations.
 
 Inductive skel :=
@@ -28,7 +28,10 @@ Inductive skel :=
 | KNnTuckerN (N sweeps : nat) (normalize : bool) (modes : list nat) | KInitTuckerNnN (N : nat)
 | KMonoProx (dec vec : bool) (rows cols : nat) | KUnimodalProx (vec : bool) (rows cols : nat)
 | KXNnTuckerHalsActiveSet
-| KNnTuckerClassFit (N sweeps : nat) (normalize : bool) (modes : list nat).
+| KNnTuckerClassFit (N sweeps : nat) (normalize : bool) (modes : list nat)
+(* round 8: non_negative_tucker_hals (fista core update) with a user init, every order; the estimator class Tucker_NN_HALS *)
+| KNnTuckerHalsN (N sweeps fiters sclen fmlen : nat) (rm : option nat) (fixed modes : list nat) (normalize : bool)
+| KNnTuckerHalsClassFit (N sweeps fiters sclen fmlen : nat) (rm : option nat) (fixed modes : list nat) (normalize : bool).
 
 Definition skeleton (k : skel) : cmd :=
   match k with
@@ -72,6 +75,9 @@ Definition skeleton (k : skel) : cmd :=
   | KUnimodalProx vec rows cols => sk_unimodality_prox vec rows cols
   | KXNnTuckerHalsActiveSet => Skip      (* an xcmd kind: see xcmd_of *)
   | KNnTuckerClassFit N sweeps normalize modes => sk_estimator_fit 1 (sk_nn_tucker_gen N sweeps normalize modes) 25
+  | KNnTuckerHalsN N sweeps fiters sclen fmlen rm fixed modes normalize => sk_nn_tucker_hals_gen N sweeps fiters sclen fmlen rm fixed modes normalize
+  | KNnTuckerHalsClassFit N sweeps fiters sclen fmlen rm fixed modes normalize =>
+      sk_estimator_fit 3 (sk_nn_tucker_hals_gen N sweeps fiters sclen fmlen rm fixed modes normalize) 25
   end.
 
 (* entry points that CATCH exceptions: (pre, try-body, handler, rest) of Model.Effects *)
@@ -91,6 +97,20 @@ Definition tcmd_of (k : skel) : option tcmd :=
 (* entry points whose CALLEE catches exceptions (Model.EffectsR7.xcmd; any oracle: Props C15_frame_xcmd) *)
 Definition xcmd_of (k : skel) : option xcmd :=
   match k with KXNnTuckerHalsActiveSet => Some xc_nn_tucker_hals_active_set | _ => None end.
+
+(* round 8: the same entry points under STRUCTURED exceptions (Model.EffectsR8.ycmd; any oracle: Props C15_frame_ycmd): the try
+   statement of initialize_cp (handler re-raises) seen from its callers, handlers that may raise themselves, try inside loops /
+   callees.  Evaluated IN ADDITION to the clauses below. *)
+Definition ycmd_of (k : skel) : option ycmd :=
+  match k with
+  | KInitCpN N => Some (yc_initialize_cp_gen N)
+  | KParafacN N sweeps fmlen rm modes => Some (yc_parafac_gen N sweeps fmlen rm modes)
+  | KHalsN N sweeps sclen fmlen fixed modes => Some (yc_nn_parafac_hals_gen N sweeps sclen fmlen fixed modes)
+  | KTryEntropy => Some yc_vonneumann_entropy
+  | KTryTtCross => Some (yc_tt_cross 2 3)
+  | KXNnTuckerHalsActiveSet => Some yc_nn_tucker_hals_active_set
+  | _ => None
+  end.
 
 (* region reachable from the in-place arguments: Model.Effects.inplace_region, accepted only together with its closure
    certificate region_closed (then it is exactly `reach`: Props C15_region_exact) *)
@@ -133,6 +153,7 @@ Definition agree (c : case) : bool :=
   match k with
   | None => region_ok h args flags observed
   | Some s =>
+      match ycmd_of s with Some t => ysafe_with flags t | None => true end &&
       match xcmd_of s with
       | Some t => xsafe_with flags t && region_ok h args flags observed
       | None =>
